@@ -314,6 +314,39 @@ func Run[C any](t *testing.T, id, sub string, gen func(*rapid.T) C, prop func(C)
 	})
 }
 
+// Fuzz drives the same generator and property with Go's native coverage-guided
+// fuzzer (thorough tier): the fuzzer's bytes are rapid's random bit stream, so
+// every input is a generated case and the oracle is the property itself. A
+// violation that is an open known finding is skipped so that the campaign goes
+// on behind it.
+func Fuzz[C any](f *testing.F, id, sub string, gen func(*rapid.T) C, prop func(C) Outcome) {
+	initEnv()
+	// seeds: deterministic byte strings long enough for the generators to draw from
+	for i := 0; i < 12; i++ {
+		n := 256 << (i % 5)
+		b := make([]byte, 0, n+32)
+		for k := 0; len(b) < n; k++ {
+			h := sha256.Sum256([]byte(fmt.Sprintf("%s/%s/%d/%d", id, sub, i, k)))
+			b = append(b, h[:]...)
+		}
+		if i%3 == 2 {
+			// low values make rapid's draws small: short sequences, boundary picks
+			for k := range b {
+				b[k] &= 0x0F
+			}
+		}
+		f.Add(b[:n])
+	}
+	f.Fuzz(rapid.MakeFuzz(func(rt *rapid.T) {
+		c := gen(rt)
+		o := prop(c)
+		if o.Violation != "" && !IsKnown(id, o.Sig) {
+			raw, _ := json.Marshal(c)
+			rt.Fatalf("VIOLATION %s/%s sig=%q: %s\ncase: %s", id, sub, o.Sig, o.Violation, raw)
+		}
+	}))
+}
+
 func loadCase[C any](t *testing.T, path string) (C, string, bool) {
 	var zero C
 	b, err := os.ReadFile(path)
